@@ -4,12 +4,12 @@ package main
 // of attacker-chosen integers, with "bounded by an untainted value" as the sanitiser.
 
 import (
-	"strings"
 	"fmt"
-	"os"
 	"go/token"
 	"go/types"
+	"os"
 	"sort"
+	"strings"
 
 	"golang.org/x/tools/go/ssa"
 )
